@@ -156,7 +156,7 @@ theorem mapM_paramValue_nil (ds : List ArgDesc) (vs : List Val)
         simp [h0, h1] at h
         subst h
         obtain ⟨ih1, ih2⟩ := ih vs' h1
-        simp [List.filterMap_cons, hdecl, ← ih1, List.filter_cons, isMandatory, ih2]
+        simp [hdecl, ← ih1, isMandatory, ih2]
 
 /-- in a well-formed signature the mandatory parameters are exactly the first `mandatoryCount` -/
 theorem wf_mandatory_prefix {f : FuncDef} (hwf : wf f = true) (i : Nat) (d : ArgDesc)
@@ -177,7 +177,7 @@ theorem wf_mandatory_prefix {f : FuncDef} (hwf : wf f = true) (i : Nat) (d : Arg
       | succ j =>
         simp at hd
         have := ih j h1 hd
-        simp [List.filter_cons, ha, this]
+        simp [ha, this]
     · simp only [ha, Bool.false_eq_true, ↓reduceIte] at h1
       have hall : ∀ x ∈ a :: l, isMandatory x = false := by
         intro x hx
@@ -242,7 +242,7 @@ theorem variable_tail_only_mandatory {f : FuncDef} (ht : hasTail f = true) (vs :
     simp only [phases] at hll ⊢
     rw [hdw]
     · simp only [List.length_map] at hll
-      simp only [List.length_map, hll, ← List.map_drop, List.map_map]
+      simp only [hll, ← List.map_drop, List.map_map]
       simp only [Function.comp_def, List.map_id']
       by_cases hle : mandatoryCount f ≤ vs.length
       · rw [Nat.min_eq_left hle]
@@ -310,10 +310,10 @@ theorem call_mem_named {f : FuncDef} {call : Call} {n : String} {v : Val}
   rcases h with h | h | h
   · have := Bind.mem_takeWhile_imp' _ _ _ (List.mem_of_mem_take h)
     simp [isUnnamed] at this
-  · simp only [phases, List.length_map, List.mem_filterMap]
+  · simp only [phases, List.mem_filterMap]
     exact ⟨(some n, v), h, rfl⟩
   · unfold misplacedNamed at hmis
-    simp only [phases, List.length_map, List.any_eq_false] at hmis
+    simp only [phases, List.any_eq_false] at hmis
     have := hmis _ h
     simp [isNamed] at this
 
@@ -372,7 +372,7 @@ theorem named_to_named {f : FuncDef} {call : Call} {args tail : List Val}
   have hnamed := call_mem_named hb.2.2.1 hm
   have hu := hb.1
   have hd := hb.2.1
-  simp only [unknownName, List.any_eq_false, Bool.not_eq_true', Bool.not_eq_false'] at hu
+  simp only [unknownName, List.any_eq_false, Bool.not_eq_true'] at hu
   simp only [alreadySupplied, Bool.or_eq_false_iff, List.any_eq_false, Bool.not_eq_false',
     decide_eq_true_eq] at hd
   have h1 : n ∈ paramNames f := by simpa using hu _ hnamed
